@@ -152,21 +152,27 @@ def _split():
                          cost=(40 if kind == "dq" else 10) * n)
     # extraction from identity tables (the sift starts at a concrete position): the sizes at
     # which the trickle-down reaches grandchildren of both children of the root
-    # (n = 17: the first size at which the trickle-down from a max-level node reaches a
-    # grandchild that has children of its own; measured 5 min, 9 GB per instance)
-    for n, t in ((6, QUICK), (7, QUICK), (8, THOROUGH), (9, THOROUGH), (15, THOROUGH), (16, THOROUGH), (17, QUICK), (18, THOROUGH)):
+    # Deep sizes. The element that replaces the extracted one comes from the LAST slot, i.e. from
+    # one particular subtree; the second swap of a trickle-down round (with the grandchild's
+    # parent) can only happen when that parent lies outside this subtree. For pop_min that is
+    # possible from n = 12 on (n = 17 here: 3 min); for pop_max only from n = 20 on (last slot 19
+    # under position 4, largest grandchild under position 3 with children at 15, 16): 6 min, 9 GB.
+    for n, t in ((6, QUICK), (7, QUICK), (8, THOROUGH), (9, THOROUGH), (15, THOROUGH), (16, THOROUGH), (17, THOROUGH), (18, THOROUGH), (20, THOROUGH)):
         for op in ("pop_lo", "pop_hi", "pop_lo_if"):
             if n >= 15 and op == "pop_lo_if":
                 continue
+            tt = t
+            if (n, op) in ((17, "pop_lo"), (20, "pop_hi")):
+                tt = QUICK
             # sorted consumption is a chain of these extractions (C06)
-            step(op, "dq", n, "inv", "or", {"C02": t, "C08": t if op == "pop_lo_if" else None,
-                                            "C06": t if op != "pop_lo_if" else None}, tables="id",
+            step(op, "dq", n, "inv", "or", {"C02": tt, "C08": tt if op == "pop_lo_if" else None,
+                                            "C06": tt if op != "pop_lo_if" else None}, tables="id",
                  cost=30 * n if n < 15 else 1500, mem=3 if n < 15 else 10)
     for n, t in ((8, QUICK), (9, THOROUGH), (15, THOROUGH), (16, THOROUGH)):
         step("pop_hi", "pq", n, "inv", "or", {"C01": t, "C06": t}, tables="id", cost=10 * n)
     # two min levels crossed (C02's "sizes >= 16"): position split at n = 15, 16
     for n in (15, 16):
-        for op, grow, keys in (("push", 1, (n,)), ("change_priority", 0, (0, 7, n - 1)), ("remove", 0, (0, 3))):
+        for op, grow, keys in (("push", 1, (n,)), ("change_priority", 0, (0, 1, 2, 7, n - 1)), ("remove", 0, (0, 3))):
             for k in keys:
                 # a new element at slot 15 / 16 rises across two min (or max) levels: 45 s
                 step(op, "dq", n, "inv", "or", {"C02": QUICK if op == "push" else THOROUGH}, tables=f"idk{k}", grow=grow,
@@ -240,6 +246,32 @@ def _more():
                     if pat == canon:
                         retain(op, kind, n, pat, "cs", "st", {"C04": tq(n, 2, tmax) if op == "retain_mut" else THOROUGH})
             step("clear", kind, n, "cs", "all", {"C16": tq(n, 3, tmax), "C04": tq(n, 1, tmax)}, grow=1)
+
+    # pre-states with a large unused capacity (len < capacity / 8): behaviour must not depend on it
+    for kind in ("pq", "dq"):
+        ty = KINDS[kind]["ty"]
+        dq = kind == "dq"
+        for n in (1, 2):
+            sp = "{ gen::set_spare(16); "
+            t = QUICK if n == 1 or not dq else THOROUGH
+            inst(f"step_{kind}_clear_n{n}_cs_all_s16", sp + f"step::clear::<{ty}, {n}>(Pre::CrashSafe, Tables::Any, step::ALL) }}",
+                 kind, n + 1, {"C16": t, "C17": t}, "STEP", meta=dict(op="clear", kind=kind, n=n, pre="cs", group="all", spare_capacity=16),
+                 covers_required=False)
+            inst(f"drain_{kind}_n{n}_drop_s16", sp + f"iters::drain::<{ty}, {n}>(Pre::CrashSafe, false) }}",
+                 kind, max(n, 2), {"C16": t}, "STEP", meta=dict(op="drain", end="drop", kind=kind, n=n, pre="cs", spare_capacity=16),
+                 covers_required=False)
+            for op, grow, props in (("push", 1, {"C03": t, "C17": t}), ("pop_hi", 0, {"C03": t}), ("remove", 0, {"C03": THOROUGH if dq else t})):
+                inst(f"step_{kind}_{op}_n{n}_cs_mo_s16", sp + f"step::{op}::<{ty}, {n}>(Pre::CrashSafe, Tables::Any, step::MODEL) }}",
+                     kind, n + grow, props, "STEP", meta=dict(op=op, kind=kind, n=n, pre="cs", group="mo", spare_capacity=16),
+                     covers_required=False)
+            inst(f"itermut_{kind}_prefix_n{n}_dir_drop_s16",
+                 sp + f"iters::iter_mut_prefix::<{ty}, {n}>(Pre::Inv, Tables::Any, step::ALL, false, false) }}",
+                 kind, n, {"C08": t}, "STEP", meta=dict(op="iter_mut", end="drop", kind=kind, n=n, pre="inv", group="all", spare_capacity=16),
+                 covers_required=False)
+            inst(f"step_{kind}_retain_mut_n{n}_p{(1 << n) - 2:0{n}b}_inv_all_s16",
+                 sp + f"step::retain_mut::<{ty}, {n}, {(1 << n) - 2}>(Pre::Inv, Tables::Any, step::ALL) }}",
+                 kind, n, {"C08": t}, "STEP", meta=dict(op="retain_mut", kind=kind, n=n, pre="inv", group="all", spare_capacity=16),
+                 covers_required=False)
 
 
 _more()
@@ -317,6 +349,29 @@ def _iters():
                 inst(f"drain_{kind}_n{n}_{e}", f"iters::drain::<{ty}, {n}>(Pre::CrashSafe, {B[forget]})",
                      kind, max(n, 2), {"C16": t, "C04": tq(n, 1, tmax), "C10": t1 if forget else None}, "STEP",
                      meta=dict(op="drain", end=e, pre="cs", **m), covers_required=(n > 0))
+        # the same protocols with the skipping methods nth / nth_back in the program (iterator
+        # types may override them; adaptors such as skip and step_by are built on them)
+        for n in (1, 2, 3):
+            tn = tq(n, 3 if kind == "pq" else 2, 3)
+            m = dict(kind=kind, n=n, program="next / next_back / nth(j) / nth_back(j), j <= 2")
+            inst(f"itermut_{kind}_proto_n{n}_nth", f"{{ iters::with_nth(); iters::iter_mut_proto::<{ty}, {n}>(false) }}",
+                 kind, n, {"C09": tn}, "ITER", meta=dict(iter="iter_mut", **m), covers_required=False)
+            inst(f"iter_{kind}_proto_n{n}_nth", f"{{ iters::with_nth(); iters::iter_proto::<{ty}, {n}>() }}",
+                 kind, n, {"C13": tn}, "ITER", meta=dict(iter="iter", **m), covers_required=False)
+            inst(f"intoiter_{kind}_proto_n{n}_nth", f"{{ iters::with_nth(); iters::into_iter_proto::<{ty}, {n}>() }}",
+                 kind, n, {"C13": tn}, "ITER", meta=dict(iter="into_iter", **m), covers_required=False)
+            inst(f"drain_{kind}_proto_n{n}_nth", f"{{ iters::with_nth(); iters::drain_proto::<{ty}, {n}>(true) }}",
+                 kind, n, {"C13": tn, "C16": THOROUGH}, "ITER", meta=dict(iter="drain", **m), covers_required=False)
+            # (a symbolic program with nth over a sorted iterator -- every skipped element a pop --
+            # does not get through the solver: one skipping call with a concrete j instead)
+            for j in sorted({0, n - 1, n, n + 1}):
+                for back in ((False, True) if kind == "dq" else (False,)):
+                    inst(f"sorted_{kind}_skip_n{n}_j{j}{'_back' if back else ''}",
+                         f"iters::sorted_skip::<{ty}, {n}, {j}>({B[back]})", kind, n,
+                         {"C13": (tn if j in (n - 1, n) and not (back and n >= 2) else THOROUGH),
+                          "C06": (tn if j == n and not (back and n >= 2) else THOROUGH)}, "ITER",
+                         meta=dict(iter="into_sorted_iter", kind=kind, n=n, call=f"nth{'_back' if back else ''}({j}) then next()"),
+                         covers_required=False, cost=n * n * (25 if kind == "dq" else 5))
         # C06: n chained pops; the min-max heap is the expensive half
         smax_q, smax_t = (4, 6) if kind == "pq" else (3, 5)
         for n in range(0, smax_t + 1):
